@@ -48,7 +48,7 @@ m = {
         "kind_free_text": "verification-condition generator for Python (AST of /repo/src re-read on every run -> symbolic executor with ropes, loop invariants, callee contracts -> z3 5.1); sidecar contracts in /verif/contracts",
     }],
     "checks": checks,
-    "notes": "See DESIGN.md. Exit 0 held / 1 violation / 3 checker error. KNOWN_FINDINGS.txt lists the 14 repaired defects (fix: commits in /repo); no open finding.",
+    "notes": "See DESIGN.md (10 = as built; 10.8a = third session). Each check also verifies the functions whose contracts its own proofs used at call sites (direct callees in the quick tier, transitive closure in the thorough tier). Bounded stand-ins exist in C05, C07, C08 only, are labelled under bounded_standins in the evidence and are never counted as proved. Exit 0 held / 1 violation / 3 checker error. KNOWN_FINDINGS.txt lists the 14 repaired defects (fix: commits in /repo); no open finding.",
     "not_applicable": na,
 }
 json.dump(m, open(os.path.join(HERE, "MANIFEST.json"), "w"), indent=1)
